@@ -409,7 +409,7 @@ def execute(scn, ctx):
     for spec in scn["objects"]:
         o, c = M.build_group_scores(spec)
         pool.append(o)
-        callers.append((c, M.fingerprint(list(c.values()))))
+        callers.append((c, c.fp0))
         models.append(Model.from_spec(spec))
         gdt.append(spec.get("gdtype", "str"))
         if spec.get("group_names") is not None:
